@@ -331,6 +331,34 @@ func g01Pipeline(repo string, w *Out) error {
 	if err != nil {
 		return err
 	}
+	// readRequest: after the head has been read the read deadline is switched from the header deadline to the
+	// whole-request deadline (zero = none) whenever the two differ
+	rr, err := pc.Func("proxyConn.readRequest")
+	if err != nil {
+		return err
+	}
+	adj, readIdx, adjIdx := "", -1, -1
+	for i, st := range rr.Body.List {
+		txt := pc.Src(st)
+		if strings.Contains(txt, "http.ReadRequest(") && readIdx < 0 {
+			readIdx = i
+		}
+		if is, ok := st.(*ast.IfStmt); ok && strings.Contains(pc.Src(is.Body), "p.conn.SetReadDeadline(wholeReqDeadline)") {
+			adj, adjIdx = pc.Src(is.Cond), i
+		}
+	}
+	if readIdx < 0 || adjIdx < readIdx {
+		return fmt.Errorf("readRequest: deadline adjustment after http.ReadRequest not found (read %d, adjust %d)", readIdx, adjIdx)
+	}
+	switch adj {
+	case "!hdrDeadline.Equal(wholeReqDeadline)":
+		w.DefBool("deadline_adjust_requires_whole", false)
+	case "!wholeReqDeadline.IsZero() && !hdrDeadline.Equal(wholeReqDeadline)",
+		"!hdrDeadline.Equal(wholeReqDeadline) && !wholeReqDeadline.IsZero()":
+		w.DefBool("deadline_adjust_requires_whole", true)
+	default:
+		return fmt.Errorf("readRequest: deadline adjustment condition %q is not a shape the model knows", adj)
+	}
 	if !strings.Contains(pc.Src(hd.Body), `if reqUpType != "" { req.Header.Set("Connection", "Upgrade") req.Header.Set("Upgrade", reqUpType) }`) {
 		return fmt.Errorf(`handle: block if reqUpType != "" { Set Connection: Upgrade; Set Upgrade: reqUpType } not found`)
 	}
